@@ -158,6 +158,35 @@ func cmdC01Streams(o opts) {
 			em.put(g, data, -1, "eof", sc, false, streamCfg{}, true, "written_stream")
 		}
 	}
+	// long histories through ONE reader (more payload than any internal block or pool of the reader holds), every frame
+	// kept until the end: 560 frames of 240..255 bytes (about 140 KiB of payload) and 9000 frames of 0..12 bytes
+	nlong := 1
+	if o.tier == "thorough" {
+		nlong = 2
+	}
+	for s := 0; s < nlong; s++ {
+		for _, shape := range []string{"large", "small"} {
+			rw := &recWriter{}
+			w := &frame.Writer{ByteWriter: rw}
+			if err := w.Initialize(); err != nil {
+				fatal("writer init: %v", err)
+			}
+			cnt, lo, span := 560, 240, 16
+			if shape == "small" {
+				cnt, lo, span = 9000, 0, 13
+			}
+			for i := 0; i < cnt; i++ {
+				v := 1 + (i+s)%2
+				j := mkFrame(r, v, v == 2 && i%3 == 0, lo+r.Intn(span))
+				func() {
+					defer func() { recover() }()
+					w.Write(j.toGo()) //nolint:errcheck
+				}()
+			}
+			data := append([]byte{}, rw.buf.Bytes()...)
+			em.put(em.group(), data, -1, "eof", []int{1 + r.Intn(2000)}, false, streamCfg{bufSize: 512}, true, "long_history_"+shape)
+		}
+	}
 	rec.Close()
 }
 
